@@ -466,6 +466,12 @@ def tournament_task(n_pop, size, k, label_prefix="", wrong=None):
         rec(eng, f"{label}:post.k-draws-per-entry", len(draws) == n_pop * k, f"{len(draws)} draws")
         if not isinstance(ret, list) or len(ret) != n_pop or len(draws) != n_pop * k:
             return
+        # moves edit circuits in place and scores are stored next to them: two members that share a circuit (or the entry tuple)
+        # cannot both keep "stored score = metric of the stored circuit" (C19) once one of them is mutated
+        shared = [(a, b) for a in range(len(ret)) for b in range(a + 1, len(ret))
+                  if ret[a] is ret[b] or (isinstance(ret[a], tuple) and isinstance(ret[b], tuple) and len(ret[a]) == 2 == len(ret[b])
+                                          and ret[a][1] is ret[b][1])]
+        rec(eng, f"{label}:post.entries-are-pairwise-distinct-copies", not shared, f"entries {shared} are the same object / share a circuit")
         for j, e in enumerate(ret):
             mine = draws[j * k:(j + 1) * k]
             fresh = isinstance(e, tuple) and len(e) == 2 and isinstance(e[1], Obj) and id(e[1]) not in pre and id(e) not in pre
